@@ -79,6 +79,8 @@ type Layout struct {
 	Slots    []int
 	Spelling []string // path given for each slot (an unclean spelling of the directory's path is possible)
 	serial   int
+	// AllowLinks: valid Spec files may be symbolic links to regular files outside the Spec directories
+	AllowLinks bool
 }
 
 // Vendors, classes and device names come from small pools so that files collide.
@@ -141,10 +143,21 @@ func (l *Layout) NewValidFile(t *rapid.T, label, dir, name string, edits EditsFu
 	if !IsSpecName(name) {
 		f.Kind = NonSpec
 	}
+	// one valid file in six is a symbolic link to the real file, kept outside the Spec directories
+	// (what a ConfigMap volume or `ln -s` produces): reading it yields the same valid Spec
+	linked := l.AllowLinks && rapid.IntRange(0, 5).Draw(t, label+"symlinked") == 0
 	if strings.HasSuffix(name, ".json") || rapid.Bool().Draw(t, label+"jsonInYaml") {
 		f.Data, _ = json.Marshal(s)
 	} else {
 		f.Data = gen.EncodeYAML(gen.ToTree(s))
+	}
+	if linked {
+		tdir := filepath.Join(l.Root, "link-targets")
+		_ = os.MkdirAll(tdir, 0o755)
+		target := filepath.Join(tdir, fmt.Sprintf("t%d%s", l.serial, filepath.Ext(name)))
+		if err := os.WriteFile(target, f.Data, 0o644); err == nil {
+			f.Link = target
+		}
 	}
 	return f
 }
@@ -186,6 +199,7 @@ type Options struct {
 	NoIgnored    bool // no non-Spec names, no subdirectories
 	SimpleSpell  bool // every slot is spelled with its clean path
 	DistinctDevs bool // every qualified name is defined by at most one file (no shadowing, no conflicts)
+	Links        bool // valid Spec files may be symbolic links to regular files kept elsewhere
 }
 
 // Generate draws a layout below root (not yet written to disk).
@@ -196,7 +210,7 @@ func Generate(t *rapid.T, root string, o Options) *Layout {
 	if o.MaxFiles == 0 {
 		o.MaxFiles = 4
 	}
-	l := &Layout{Root: root}
+	l := &Layout{Root: root, AllowLinks: o.Links}
 	for i := 0; i < 4; i++ {
 		l.Pool = append(l.Pool, &Dir{Name: fmt.Sprintf("dir%d", i), Exists: true, Files: map[string]*File{}, Subdirs: map[string]map[string]*File{}})
 	}
@@ -462,6 +476,9 @@ func (l *Layout) Describe() any {
 		for _, n := range d.SortedFileNames() {
 			f := d.Files[n]
 			x := fd{Name: n, Kind: f.Kind}
+			if f.Link != "" && f.Kind == Valid {
+				x.Kind = "valid(symlink)"
+			}
 			if f.Spec != nil {
 				var devs []string
 				for _, dv := range f.Spec.Devices {
